@@ -7,7 +7,8 @@ From BV Require Import Base.Prelude Model.Block Model.ForkDB Model.Forkable Mode
   Check.Fk_Check Check.Burst_Check
   Proofs.Fk.StoreFacts Proofs.Fk.WalkFacts Proofs.Fk.LoopFacts Proofs.Fk.StoreChange Proofs.Fk.SwitchFacts
   Proofs.Fk.FixedLib Proofs.Fk.MovingLibStore Proofs.Fk.MovingLibWalk Proofs.Fk.MovingLibLoops
-  Proofs.Fk.MovingLibInv Proofs.Fk.MovingLibFin Proofs.Fk.MovingLibDisc Proofs.Hub.StepFields Proofs.Hub.ConsFacts.
+  Proofs.Fk.MovingLibInv Proofs.Fk.MovingLibFin Proofs.Fk.MovingLibDisc Proofs.Hub.StepFields Proofs.Hub.ConsFacts
+  Proofs.Hub.StepStore Proofs.Hub.Retention.
 Local Open Scope N_scope.
 
 Lemma rev_inj {A} (l1 l2 : list A) : rev l1 = rev l2 -> l1 = l2.
@@ -104,21 +105,28 @@ Section Hub.
     ca_undo : estep e = SUndo -> bparent (eblk e) = tip (bid L) Q /\ bnum L < bnum (eblk e)
   }.
 
-  (* the New / Undo events of a list evs delivered to the consumer c0, relative to the final part Fin1
-     known afterwards: P is a beginning of Fin1 *)
-  Definition MidFacts (c0 : cons) (evs : list event) (a : block) (Fin1 : list block) : Prop :=
-    forall l1 e l2, evs = l1 ++ e :: l2 -> nu e ->
-      exists ck P Q F0, cons_fold c0 (l1 ++ [e]) = Some ck /\ CurAt a e ck P Q (libblk a P) /\
-        Fin1 = P ++ F0 /\ linked (bid (libblk a P)) F0 /\
-        Forall (fun x => In x U /\ bnum (libblk a P) < bnum x) F0.
+  (* the blocks the event is about (the cursor LIB block L, what the consumer holds above it, the event's block)
+     were stored together: the set B0 *)
+  Definition Held (B0 : list block) (e : event) (Q : list block) (L : block) : Prop :=
+    In L B0 /\ Forall (fun x => In x B0) Q /\ In (eblk e) B0.
 
-  Lemma mid_extend c0 evs a Fin1 F2 : MidFacts c0 evs a Fin1 ->
+  (* the New / Undo events of a list evs delivered to the consumer c0, relative to the final part Fin1 and the
+     state s1 known afterwards: P is a beginning of Fin1, the blocks of the event obey retention in s1 *)
+  Definition MidFacts (c0 : cons) (evs : list event) (a : block) (Fin1 : list block) (s1 : fstate) : Prop :=
+    forall l1 e l2, evs = l1 ++ e :: l2 -> nu e ->
+      exists ck P Q F0 B0, cons_fold c0 (l1 ++ [e]) = Some ck /\ CurAt a e ck P Q (libblk a P) /\
+        Fin1 = P ++ F0 /\ linked (bid (libblk a P)) F0 /\
+        Forall (fun x => In x U /\ bnum (libblk a P) < bnum x) F0 /\
+        Held B0 e Q (libblk a P) /\ Ret B0 s1.
+
+  Lemma mid_extend c0 evs a Fin1 F2 s1 s2 : MidFacts c0 evs a Fin1 s1 ->
     linked (bid (libblk a Fin1)) F2 -> Forall (fun x => In x U /\ bnum (libblk a Fin1) < bnum x) F2 ->
-    MidFacts c0 evs a (Fin1 ++ F2).
+    (forall B0, Ret B0 s1 -> Ret B0 s2) ->
+    MidFacts c0 evs a (Fin1 ++ F2) s2.
   Proof.
-    intros HM Hl HF l1 e l2 Hs Hn. destruct (HM l1 e l2 Hs Hn) as (ck & P & Q & F0 & Hc & HC & -> & Hl0 & HF0).
-    exists ck, P, Q, (F0 ++ F2). split; [exact Hc|]. split; [exact HC|]. split; [rewrite app_assoc; reflexivity|].
-    split.
+    intros HM Hl HF HRet l1 e l2 Hs Hn. destruct (HM l1 e l2 Hs Hn) as (ck & P & Q & F0 & B0 & Hc & HC & -> & Hl0 & HF0 & HH & HR).
+    exists ck, P, Q, (F0 ++ F2), B0. split; [exact Hc|]. split; [exact HC|]. split; [rewrite app_assoc; reflexivity|].
+    split; [|split; [|split; [exact HH | apply HRet; exact HR]]].
     - apply linked_app_iff. split; [exact Hl0|]. rewrite <- libblk_tip. exact Hl.
     - apply Forall_app. split; [exact HF0|].
       assert (Hm : bnum (libblk a P) <= bnum (libblk a (P ++ F0))).
@@ -126,17 +134,17 @@ Section Hub.
       eapply Forall_impl; [|exact HF]. cbn beta. intros x [H1 H2]. split; [exact H1 | lia].
   Qed.
 
-  Lemma mid_compose c0 evs c1 E' a Fin1 : cons_fold c0 evs = Some c1 ->
-    MidFacts c0 evs a Fin1 -> MidFacts c1 E' a Fin1 -> MidFacts c0 (evs ++ E') a Fin1.
+  Lemma mid_compose c0 evs c1 E' a Fin1 s1 : cons_fold c0 evs = Some c1 ->
+    MidFacts c0 evs a Fin1 s1 -> MidFacts c1 E' a Fin1 s1 -> MidFacts c0 (evs ++ E') a Fin1 s1.
   Proof.
     intros Hc H1 H2 l1 e l2 Hs Hn.
     destruct (app_split_cases _ _ _ _ _ Hs) as [(l2' & Hev & _)|(E1' & -> & HE')].
     - exact (H1 l1 e l2' Hev Hn).
-    - destruct (H2 E1' e l2 HE' Hn) as (ck & P & Q & F0 & Hck & R).
-      exists ck, P, Q, F0. split; [|exact R]. rewrite <- app_assoc, cfold_app, Hc. exact Hck.
+    - destruct (H2 E1' e l2 HE' Hn) as (ck & P & Q & F0 & B0 & Hck & R).
+      exists ck, P, Q, F0, B0. split; [|exact R]. rewrite <- app_assoc, cfold_app, Hc. exact Hck.
   Qed.
 
-  Lemma mid_nil c0 a Fin1 : MidFacts c0 [] a Fin1.
+  Lemma mid_nil c0 a Fin1 s1 : MidFacts c0 [] a Fin1 s1.
   Proof. intros l1 e l2 H. destruct l1; discriminate. Qed.
 
   (* ---------------------------------------------------------------- one ProcessBlock call after the discovery *)
@@ -147,7 +155,8 @@ Section Hub.
       cons_fold c evs = Some c' /\
       linked (bid (libblk a Fin)) Fnew /\
       Forall (fun x => In x U /\ bnum (libblk a Fin) < bnum x) Fnew /\
-      MidFacts c evs a (Fin ++ Fnew).
+      MidFacts c evs a (Fin ++ Fnew) s' /\
+      (forall B1, Ret B1 s -> Ret B1 s').
   Proof.
     intros [Ha HI Hc Hcl Hne Hx] Hb.
     destruct (inv_lib a s Fin S Ha HI) as (HLU & Hlib).
@@ -225,12 +234,37 @@ Section Hub.
     assert (Hfold : cons_fold c ((evU ++ evN) ++ evI ++ evS) = Some (mkCons S' (length (Fin ++ Fnew)) true)).
     { rewrite Hc, HS, <- app_assoc, cfold_app, HcU, cfold_app, HcN, cfold_app.
       rewrite (irr_phase U U_uniq S' evI Fnew Fin (map eb p') HmI HsI HrevS'). apply quiet_stalled. exact HsS. }
+    (* the stored blocks *)
+    assert (Hself : forall e0, find (bid b) (store (db s)) = Some e0 -> eb e0 = b).
+    { intros e0 He0. exact (stored_is_self U U_uniq _ _ _ (di_inU U _ _ Hd) Hb He0). }
+    destruct (fk_step_store cfg Hnofail Hnew Hincl s b Hhl (proj1 (U_id b Hb)) Hself)
+      as (new & Hnewc & (s3 & evs3 & r3 & Hrun3 & HN & T & HT & HTl)).
+    rewrite Hstep in Hrun3. injection Hrun3 as <- <- <-.
+    set (B0 := map eb (store (db s)) ++ new) in *.
+    pose proof (ret_start s' T B0 HT HTl) as HRet0.
+    assert (Hpres : forall B1, Ret B1 s -> Ret B1 s').
+    { intros B1 HR1. destruct (dropped s b) eqn:Hdr.
+      - pose proof (fk_step_dropped U cfg U_id s b Hb Hdr) as Hdrop. rewrite Hstep in Hdrop. injection Hdrop as -> _. exact HR1.
+      - apply (ret_filter B1 s s' T new b HR1 HT Hnewc HTl Hmono). intros _ Hb1. destruct HR1 as [_ HK].
+        destruct (HK b Hb1) as [Hsb|Hlt]; [exact Hsb|]. exfalso. unfold dropped in Hdr. rewrite Els in Hdr.
+        rewrite andb_true_r in Hdr. apply N.ltb_ge in Hdr. lia. }
+    assert (HLst : In L B0).
+    { apply in_or_app. left. pose proof (di_num U _ _ Hd) as Hnum. unfold num_of in Hnum.
+      destruct (find (ri (libref (db s))) (store (db s))) as [el|] eqn:Fel; [|rewrite Hx in Hnum; discriminate].
+      pose proof (find_some _ _ _ Fel) as [Hel Hkel].
+      assert (eb el = L) by (apply U_uniq; [apply (di_inU U _ _ Hd); exact Hel | exact HLU | unfold key in Hkel; congruence]).
+      subst L. rewrite <- H. apply in_map. exact Hel. }
+    assert (HpB0 : forall x, In x (map eb p) -> In x B0).
+    { intros x Hxin. apply in_or_app. left. apply in_map_iff in Hxin as (e0 & <- & He0). apply in_map. eapply chain_in; eassumption. }
+    assert (HnewB0 : forall e0, In e0 evN -> In (eblk e0) B0).
+    { intros e0 He0. apply HN; [apply in_or_app; left; apply in_or_app; right; exact He0|].
+      rewrite Forall_forall in HsN. apply HsN. exact He0. }
     exists s', ((evU ++ evN) ++ evI ++ evS), Fnew, S', (mkCons S' (length (Fin ++ Fnew)) true).
     split; [exact Hstep|]. split.
     { constructor; try assumption; try reflexivity.
       - destruct (Hc2 eq_refl) as [H|(f & Hf & _)]; [exact H | discriminate].
       - apply Hx2. exact Hx. }
-    split; [exact Hfold|]. split; [exact HlF|]. split; [exact HFnU|].
+    split; [exact Hfold|]. split; [exact HlF|]. split; [exact HFnU|]. split; [|exact Hpres].
     (* the events one by one *)
     intros l1 e l2 Hsplit Hnu.
     destruct (nu_in_front _ _ _ _ _ Hsplit HqIS Hnu) as (l2' & HA & _).
@@ -254,9 +288,16 @@ Section Hub.
       { rewrite <- HQn, HevN. unfold Q. rewrite map_app. cbn [map]. rewrite <- !app_assoc. reflexivity. }
       assert (HSkQ : Sk = rev (Fin ++ Q)).
       { rewrite HSk, HS1, map_app. cbn [map]. unfold Q. rewrite <- rev_app_distr, <- !app_assoc. reflexivity. }
-      exists (mkCons Sk (length Fin) true), Fin, Q, Fnew.
+      exists (mkCons Sk (length Fin) true), Fin, Q, Fnew, B0.
       split; [rewrite <- app_assoc, Hc, HS, cfold_app, HcU; exact Hck|].
-      split; [|split; [reflexivity|split; [exact HlF | exact HFnU]]].
+      split; [|split; [reflexivity|split; [exact HlF |split; [exact HFnU|split; [|exact HRet0]]]]].
+      2:{ split; [exact HLst|]. split.
+          - unfold Q. apply Forall_app. split; [|apply Forall_app; split].
+            + apply Forall_forall. intros x Hxin. apply HpB0. rewrite HQ0. apply in_or_app. left. exact Hxin.
+            + apply Forall_forall. intros x Hxin. apply in_map_iff in Hxin as (e0 & <- & He0). apply HnewB0.
+              rewrite HevN. apply in_or_app. left. exact He0.
+            + constructor; [|constructor]. apply HnewB0. rewrite HevN. apply in_or_app. right. left. reflexivity.
+          - apply HnewB0. rewrite HevN. apply in_or_app. right. left. reflexivity. }
       assert (HQall : Forall (fun x => In x U /\ bnum L < bnum x) (Q ++ map eblk l2')).
       { rewrite <- HQpre. apply Forall_app. split; assumption. }
       apply Forall_app in HQall as [HQU _].
@@ -283,9 +324,12 @@ Section Hub.
       { intros x Hxin. apply Hnodig. rewrite HevU. apply in_app_or in Hxin as [Hxin|[<-|[]]]; apply in_or_app; [left; exact Hxin | right; left; reflexivity]. }
       destruct (undo_phase U U_uniq (ri (R a)) Fin true (l1 ++ [e]) (map eb p) Sk HsUk Hnodigk HpU Happk) as (Qk & HQk & HSk & Hck).
       rewrite map_app, rev_app_distr in HQk. cbn [map rev app] in HQk.
-      exists (mkCons Sk (length Fin) true), Fin, Qk, Fnew.
+      exists (mkCons Sk (length Fin) true), Fin, Qk, Fnew, B0.
       split; [rewrite Hc, HS; exact Hck|].
-      split; [|split; [reflexivity|split; [exact HlF | exact HFnU]]].
+      split; [|split; [reflexivity|split; [exact HlF |split; [exact HFnU|split; [|exact HRet0]]]]].
+      2:{ split; [exact HLst|]. split.
+          - apply Forall_forall. intros x Hxin. apply HpB0. rewrite HQk. apply in_or_app. left. exact Hxin.
+          - apply HpB0. rewrite HQk. apply in_or_app. right. left. reflexivity. }
       rewrite HQk in HQp, Hlp. apply Forall_app in HQp as [HQkU _].
       destruct (HundoU e) as [HeU Hlt]; [rewrite HevU; apply in_or_app; right; left; reflexivity|].
       apply mkCurAt.
@@ -320,7 +364,7 @@ Section Hub.
 
   Definition DiscOut2 (res : fstate * list event * result) : Prop :=
     exists a s' evs Fin S' c',
-      res = (s', evs, ROk) /\ Post a s' Fin S' c' /\ cons_fold cons0 evs = Some c' /\ MidFacts cons0 evs a Fin /\
+      res = (s', evs, ROk) /\ Post a s' Fin S' c' /\ cons_fold cons0 evs = Some c' /\ MidFacts cons0 evs a Fin s' /\
       FinRooted a Fin.
 
   Lemma pii_ok2 b s2 : exists s' eI,
@@ -377,7 +421,7 @@ Section Hub.
       rewrite N.eqb_refl. reflexivity.
     - intros l1 e l2 Hsp Hn.
       destruct l1 as [|x l1]; cbn [app] in Hsp.
-      + injection Hsp as <- _. exists (mkCons [b] 0 false), [b], [], []. split; [reflexivity|]. split.
+      + injection Hsp as <- _. exists (mkCons [b] 0 false), [b], [], [], [b]. split; [reflexivity|]. split.
         * apply mkCurAt; cbn [libblk rev app].
           -- reflexivity.
           -- exact Hb.
@@ -389,7 +433,13 @@ Section Hub.
           -- reflexivity.
           -- intros _. exists []. reflexivity.
           -- intros H. discriminate.
-        * split; [reflexivity|]. split; [exact I | constructor].
+        * split; [reflexivity|]. split; [exact I|]. split; [constructor|]. split.
+          -- cbn [libblk rev app]. split; [left; reflexivity|]. split; [constructor | left; reflexivity].
+          -- assert (Hstb : stored s' b).
+             { unfold stored. rewrite Hdb'. cbn [d2 move_lib new_db store]. rewrite map_app. apply in_or_app. right. left. reflexivity. }
+             split.
+             ++ intros x0 y0 [<-|[]] [<-|[]] _ _. exact Hstb.
+             ++ intros x0 [<-|[]]. left. exact Hstb.
       + injection Hsp as <- Hsp. destruct l1 as [|y l1]; cbn [app] in Hsp.
         * injection Hsp as <- _. exfalso. destruct Hn as [Hn|Hn]; rewrite HsI in Hn; discriminate.
         * injection Hsp as _ Hsp. destruct l1; discriminate.
@@ -479,6 +529,16 @@ Section Hub.
       - pose proof (di_above U (R (eb a)) U_id U_up _ Hd' _ _ Hcp' e Hein) as H. rewrite Hlr' in H. exact H. }
     assert (HS3ne : S3 <> []).
     { unfold S3. cbn [app]. rewrite map_app, rev_app_distr. discriminate. }
+    (* the stored blocks *)
+    assert (Hlne : map seg_of (B' ++ [en]) <> []) by (destruct B'; discriminate).
+    destruct (process_tail_store cfg Hnofail Hnew s2 b [] [] None (map seg_of (B' ++ [en])) (Some (seg_of a)) Hlne)
+      as (s4 & evs4 & r4 & Hrun4 & _ & T & HT & HTl).
+    rewrite Hrun, Hlt in Hrun4. injection Hrun4 as <- _ _.
+    set (B0 := map eb (store (db s2))) in *.
+    pose proof (ret_start s' T B0 HT HTl) as HRet0.
+    assert (HB0 : forall x, In x (map eb (B' ++ [en])) -> In x B0).
+    { intros x Hx. apply in_map_iff in Hx as (e0 & <- & He0). apply in_map. eapply chain_in; [exact Hc2 | exact He0]. }
+    assert (HLB0 : In (eb a) B0) by (apply in_map; exact Ha).
     exists (eb a), s', (evRN ++ [eI]), [], S3, (mkCons S3 0 true).
     split; [reflexivity|]. split; [|split; [|split; [|left; exact I]]].
     - constructor.
@@ -515,9 +575,13 @@ Section Hub.
       set (Q := map eblk l0 ++ [eblk e]).
       assert (HQpre : map eb (B' ++ [en]) = Q ++ map eblk l2').
       { rewrite <- HQall, HevRN. unfold Q. rewrite map_app. cbn [map]. rewrite <- app_assoc. reflexivity. }
+      assert (HQB0 : forall x, In x Q -> In x B0).
+      { intros x Hx. apply HB0. rewrite HQpre. apply in_or_app. left. exact Hx. }
       rewrite HQpre in HlQ, HQU. apply Forall_app in HQU as [HQkU _].
-      exists (mkCons Sk 0 false), [], Q, [].
-      split; [exact Hck|]. split; [|split; [reflexivity|split; [exact I | constructor]]].
+      exists (mkCons Sk 0 false), [], Q, [], B0.
+      split; [exact Hck|]. split; [|split; [reflexivity|split; [exact I |split; [constructor|split; [|exact HRet0]]]]].
+      2:{ cbn [libblk rev]. split; [exact HLB0|]. split; [apply Forall_forall; exact HQB0|].
+          apply HQB0. unfold Q. apply in_or_app. right. left. reflexivity. }
       cbn [libblk rev].
       apply mkCurAt.
       + cbn [cs_stack app]. rewrite HSk, map_app. reflexivity.
